@@ -4,7 +4,7 @@ From Coq Require Import List NArith ZArith Bool.
 Import ListNotations.
 Require Import Verif.Lib.Wire Verif.Lib.Text Verif.Lib.Utf8 Verif.Lib.Percent
                Verif.Gen.Facts_C17 Verif.Model.C17 Verif.Model.C17_glue Verif.Gen.Code_C17 Verif.Proofs.C17 Verif.Proofs.C17_gen
-               Verif.Proofs.C17_gen2 Verif.Proofs.C17_total.
+               Verif.Proofs.C17_gen2 Verif.Proofs.C17_total Verif.Proofs.C17_rel Verif.Proofs.C17_text.
 Open Scope N_scope.
 
 (* extra path elements: split the produced suffix on '/', percent-decode, UTF-8 decode:
@@ -487,3 +487,47 @@ Theorem C17_current_route_url_total : forall c e rs rname matched md gt els o kw
   exists u, current_route_url c e rs rname matched md gt els o kw = Ok u.
 Proof. exact current_route_url_total. Qed.
 Print Assumptions C17_current_route_url_total.
+
+(* ================= round 6 ================= *)
+(* the URL with extra elements is the URL without them with [/]<quoted elements> inserted after the route's path: no segment
+   nobody supplied; the elements decode back *)
+Theorem C17_route_url_elements_extend : forall c e rs n els o kw u0 u,
+  els <> [] -> join_elements_c c els = join_elements els ->
+  route_url c e rs n [] o kw = Ok u0 -> route_url c e rs n els o kw = Ok u ->
+  exists ap path qs fr s ts,
+    u0 = ap ++ path ++ qs ++ fr
+    /\ u = ap ++ path ++ (if endswith_char 47 path then s else 47 :: s) ++ qs ++ fr
+    /\ join_elements els = Ok s /\ spec_elements els = Some ts /\ decode_segments s = Some ts.
+Proof. exact route_url_elements_extend. Qed.
+Print Assumptions C17_route_url_elements_extend.
+
+Theorem C17_resource_url_elements_extend : forall c e names els o u0 u,
+  els <> [] -> join_elements_c c els = join_elements els ->
+  resource_url c e names [] o = Ok u0 -> resource_url c e names els o = Ok u ->
+  exists ap vp qs fr s ts,
+    u0 = ap ++ vp ++ qs ++ fr /\ u = ap ++ vp ++ s ++ qs ++ fr
+    /\ join_elements els = Ok s /\ spec_elements els = Some ts /\ decode_segments s = Some ts.
+Proof. exact resource_url_elements_extend. Qed.
+Print Assumptions C17_resource_url_elements_extend.
+
+(* the joiner of extra elements and the joiner of resource paths differ (on a single empty element): they may not be shared *)
+Theorem C17_join_elements_is_not_join_path_tuple : exists els, join_path_tuple els <> join_elements els.
+Proof. exact join_elements_is_not_join_path_tuple. Qed.
+Print Assumptions C17_join_elements_is_not_join_path_tuple.
+
+(* configuration time: the registration add_static_view(name, spec) leaves behind is the one found for every asset below
+   that spec, unless an earlier registration's spec is a prefix of the asset path too *)
+Theorem C17_static_add_finds : forall regs name spec is_url sub,
+  (forall g, In g regs -> strip_prefix (c17_reg_spec g) (c17_norm_spec spec ++ sub) = None) ->
+  find_reg_x (c17_static_add regs name spec is_url) (c17_norm_spec spec ++ sub)
+  = Some (sub, if is_url then RExt (c17_norm_spec spec) (c17_add_slash name)
+               else RRoute (c17_norm_spec spec) ([95; 95] ++ c17_add_slash name)).
+Proof. exact c17_static_add_finds. Qed.
+Print Assumptions C17_static_add_finds.
+
+(* the path route.generate produces, percent-decoded as a whole, reads literal, value, literal, .., star value for the
+   values the caller supplied (bytes = UTF-8 text, other objects str(v), a star sequence joined with '/') *)
+Theorem C17_generate_decodes_text : forall p kw u t,
+  generate p kw = Ok u -> spec_path_text p kw = Some t -> unquote_text u = Some t.
+Proof. exact generate_decodes_text. Qed.
+Print Assumptions C17_generate_decodes_text.
